@@ -59,6 +59,9 @@ type witness struct {
 	K        kase   `json:"k"`
 	Cuts     []int  `json:"cuts"`     // a new batch starts at each of these record indices (1..n-1), ascending
 	Restarts []int  `json:"restarts"` // subset of Cuts: process restart (state file re-read, fresh tree) before that batch
+	// FaultAt: the write of the state file fails for the batch that starts at this record index (0 = never);
+	// the batches after it are written normally and there is no restart before the next successful write
+	FaultAt int `json:"state_write_fails_for_batch_starting_at,omitempty"`
 }
 
 func (k kase) logs(lo, hi int) []discovery.AccessLog {
@@ -229,7 +232,6 @@ func sortedStrings[V any](m map[string]V) []string {
 	sort.Strings(ks)
 	return ks
 }
-
 
 // relate compares an over-counted key s with an under-counted key d of the same method and shape.
 // absorbed: s has a path parameter where d has a constant (the concrete value the final tree needs
@@ -628,7 +630,16 @@ var stateSeq int
 var minimised = map[string]int{}
 
 // evalRestart runs discovery.Run batch by batch on a state file, with restarts, and checks totals.
-func evalRestart(k kase, cuts, restarts []int, scratch string) (string, string) {
+func evalRestart(k kase, cuts, restarts []int, scratch string, faultAt int) (string, string) {
+	s, d := evalRestart0(k, cuts, restarts, scratch, faultAt)
+	if faultAt > 0 && strings.HasPrefix(s, "C15/restart/") {
+		s = "C15/after-failed-state-write/" + strings.TrimPrefix(s, "C15/restart/")
+		d = fmt.Sprintf("the state file could not be written for the batch starting at record %d (transient fault, reported by Run); later batches were written normally. %s", faultAt, d)
+	}
+	return s, d
+}
+
+func evalRestart0(k kase, cuts, restarts []int, scratch string, faultAt int) (string, string) {
 	stateSeq++
 	path := filepath.Join(scratch, fmt.Sprintf("state-%d.json", stateSeq))
 	defer os.Remove(path)
@@ -659,7 +670,23 @@ func evalRestart(k kase, cuts, restarts []int, scratch string) (string, string) 
 		for i, l := range logs {
 			in[i] = common.AccessLog(l)
 		}
-		if err := discovery.Run(st, in, tree); err != nil {
+		faulted := faultAt > 0 && b[0] == faultAt
+		if faulted {
+			// the state file cannot be written: a directory stands in its place for the duration of this batch
+			_ = os.Remove(path)
+			if err := os.Mkdir(path, 0o755); err != nil {
+				return "C15/error/harness-fault", err.Error()
+			}
+		}
+		err := discovery.Run(st, in, tree)
+		if faulted {
+			_ = os.Remove(path)
+			if err == nil {
+				return "C15/error/harness-fault", "the state write did not fail although a directory stood in the file's place"
+			}
+			continue
+		}
+		if err != nil {
 			return "C15/error/run", fmt.Sprintf("batch %v: %v", b, err)
 		}
 	}
@@ -739,7 +766,7 @@ func evaluate(w witness, scratch string) (found [][2]string) {
 		}
 	}()
 	if w.Mode == "restart" {
-		if s, d := evalRestart(w.K, w.Cuts, w.Restarts, scratch); s != "" {
+		if s, d := evalRestart(w.K, w.Cuts, w.Restarts, scratch, w.FaultAt); s != "" {
 			found = append(found, [2]string{s, d})
 		}
 		return found
@@ -859,7 +886,6 @@ var methods = []string{"GET", "GET", "GET", "POST", "PUT", "DELETE"}
 var statuses = []int{200, 200, 200, 201, 204, 301, 400, 404, 429, 500, 503}
 var interceptors = []string{"lunar-aiohttp-interceptor/2.1.0", "lunar-ts-interceptor/1.4.2", "lunar-java-interceptor/0.9.0", ""}
 var consumers = []string{"", "billing", "checkout", "search-svc", "mobile"}
-
 
 func genCase(r *sim.Rand) kase {
 	k := kase{Threshold: r.Range(2, 4)}
@@ -1297,12 +1323,19 @@ func runCase(idx int, args sim.Args, r *sim.Rand, k kase, v *sim.Verdict, scratc
 	}
 
 	// --- restarts
-	type rs struct{ cuts, restarts []int }
+	type rs struct {
+		cuts, restarts []int
+		faultAt        int
+	}
 	var rss []rs
 	if n <= 7 {
 		for _, cuts := range splits {
 			for _, c := range cuts {
-				rss = append(rss, rs{cuts, []int{c}})
+				rss = append(rss, rs{cuts, []int{c}, 0})
+			}
+			if len(cuts) >= 2 {
+				// a transient failure of the state write in a middle batch, no restart
+				rss = append(rss, rs{cuts, nil, cuts[0]})
 			}
 		}
 	} else {
@@ -1320,15 +1353,22 @@ func runCase(idx int, args sim.Args, r *sim.Rand, k kase, v *sim.Verdict, scratc
 			if len(restarts) == 0 {
 				restarts = []int{sim.Pick(r, cuts)}
 			}
-			rss = append(rss, rs{cuts, restarts})
+			rss = append(rss, rs{cuts, restarts, 0})
+			if j < 3 && len(cuts) >= 2 {
+				rss = append(rss, rs{cuts, nil, cuts[r.Intn(len(cuts)-1)]})
+			}
 		}
-		rss = append(rss, rs{nil, nil}) // Run + state file without any restart
+		rss = append(rss, rs{nil, nil, 0}) // Run + state file without any restart
 	}
 	for _, x := range rss {
 		var s, d string
 		w := mk("restart", x.cuts, x.restarts)
-		if sim.Guard(v, "C15/panic/restart", w, func() { s, d = evalRestart(k, x.cuts, x.restarts, scratch) }) {
+		w.FaultAt = x.faultAt
+		if sim.Guard(v, "C15/panic/restart", w, func() { s, d = evalRestart(k, x.cuts, x.restarts, scratch, x.faultAt) }) {
 			continue
+		}
+		if x.faultAt > 0 {
+			v.Count("runs_with_a_failed_state_write_in_a_middle_batch", 1)
 		}
 		v.Eval(1)
 		v.Count("restart_runs", 1)
